@@ -680,6 +680,11 @@ def api_function(it: Any, fn: Any, args: list, kwargs: dict, f: Any) -> Any:
     if name == "ite":
         c, a, b = args
         return it.ite_value(ops.truth_term(p, c), a, b)
+    if name == "ghost_const":
+        key = ("ghost_const", args[0])
+        if key not in p.ghost:
+            p.ghost[key] = it.reg.make_symbolic(it, "ghost_" + str(args[0]), args[1] if len(args) > 1 else bytes)
+        return p.ghost[key]
     if name == "drawn_tick":
         x = args[0]
         if not is_bytes_like(x):
